@@ -363,6 +363,10 @@ func replayOne[C any](t *testing.T, id, test, path string, decide func(C) Verdic
 	}
 	v := safeDecide(decide, c)
 	fmt.Printf("REPLAY property=%s test=%s ok=%v signature=%s\n%s\n", id, test, v.OK, v.Signature, v.Detail)
+	if !v.OK && !v.Discard && knownOpen(id, v.Signature) {
+		fmt.Printf("KNOWN-FINDING (open) reproduced by the replay: %s\n", v.Signature)
+		return
+	}
 	if !v.OK && !v.Discard {
 		fmt.Printf("VIOLATION property=%s replay=%s\n", id, path)
 		t.Fatalf("replayed case still violates %s", id)
